@@ -173,13 +173,27 @@ def run(ctx) -> None:
     omp = [p_ for p_ in fo.param_names if "missing" in p_][0]
     lacking = [c_ for _, c_, _ in sel_side if not any(isinstance(a, ast.Name) and a.id == omp for a in list(c_.args) + [k.value for k in c_.keywords])]
     rep.add("C16.R5", f"{fo.qname}:explicit-selection-under-policy", not lacking, f"{fo.module.rel}:{lacking[0].lineno if lacking else fo.lineno}", "every explicit selection (string shorthand or collection) is collected under the caller's on_missing policy" if not lacking else f"'{src(lacking[0])[:70]}' serves an explicit selection without the on_missing policy: a selected but unproduced name is silently ignored even with on_missing='warn'/'error'")
+    # the collectors' own parameter names are not API: they are taken from the binding at the call in filter_outputs
+    def roles(callee, side):
+        call_ = next(c_ for _, c_, f_ in side if f_ is callee)
+        inv = {}
+        for pn, a in (bind_args(call_, callee) or {}).items():
+            inv[src(a)] = pn
+        return inv
+
+    ra = roles(ca, all_side)
+    G, ST, SN = ra.get("graph", "graph"), ra.get("state", "state"), ra.get("_EMIT_SENTINEL", "sentinel")
     comps = [n for n in walk_local(ca.node) if isinstance(n, ast.DictComp)]
-    ok = len(comps) == 1 and src(comps[0].generators[0].iter) == "graph.outputs" and any("is not sentinel" in src(i) for i in comps[0].generators[0].ifs) and any("in state.values" in src(i) for i in comps[0].generators[0].ifs)
+    ok = len(comps) == 1 and src(comps[0].generators[0].iter) == f"{G}.outputs" and any(f"is not {SN}" in src(i) for i in comps[0].generators[0].ifs) and any(f"in {ST}.values" in src(i) for i in comps[0].generators[0].ifs)
     rep.add("C16.R3", f"{ca.qname}", ok, ca.loc(), "all-outputs collector iterates graph.outputs and drops the sentinel by identity" if ok else "the all-outputs collector no longer iterates graph.outputs only / no longer excludes the emit sentinel by identity")
     from sa.pattern import solve
 
+    rs = roles(cs, sel_side)
+    ST2, SN2 = rs.get("state", "state"), rs.get("_EMIT_SENTINEL", "sentinel")
+    known = set(rs.values())
+    NM = next((pn for pn in cs.positional_params if pn not in {ST2, SN2, rs.get("graph"), rs.get(omp)} and pn != "self"), "names")
     loops = [n for n in walk_local(cs.node) if isinstance(n, ast.For)]
-    ok = len(loops) == 1 and bool(solve(["for _K in names: ...", "_R[_K] = state.values[_K]", "state.values[_K] is not sentinel", "return _R"], cs.node))
+    ok = len(loops) == 1 and bool(solve([f"for _K in {NM}: ...", f"_R[_K] = {ST2}.values[_K]", f"{ST2}.values[_K] is not {SN2}", "return _R"], cs.node))
     rep.add("C16.R3", f"{cs.qname}", ok, cs.loc(), "selected collector iterates the requested names and drops the sentinel by identity" if ok else "the selected-outputs collector can return names outside the selection or a sentinel value")
     # sentinel passed is the module constant
     sent_ok = all(any(isinstance(a, ast.Name) and a.id == "_EMIT_SENTINEL" for a in c.args) for c in db.calls_in(fo) if call_names(db, c, fo) & {ca.name, cs.name})
@@ -235,18 +249,18 @@ def run(ctx) -> None:
     vals = [e.value for e in valid.elts if isinstance(e, ast.Constant)] if isinstance(valid, (ast.Tuple, ast.List)) else []
     rep.add("C16.R5", "on_missing:declared-values", sorted(vals) == ["error", "ignore", "warn"], fo.loc(), f"declared values {vals}" if sorted(vals) == ["error", "ignore", "warn"] else f"declared on_missing values are {vals}")
     hm = db.func("runners._shared.helpers._handle_missing_outputs")
+    from .common import policy_valuation
     hcfg = ctx.cfg(hm)
     results = {}
     for v in vals:
-        val = {f"on_missing == {x!r}": (x == v) for x in vals}
-        val["on_missing not in _VALID_ON_MISSING"] = False
+        val = policy_valuation(hm, vals, v)
         live = reachable(hcfg.entry, specialize(val))
         raises = any(n.kind == "stmt" and isinstance(n.ast, ast.Raise) for n in live)
         warns = any(dotted(c.func) == "warnings.warn" for n in live for c in hcfg.calls_at(n))
         results[v] = ("raise" if raises else "") + ("warn" if warns else "")
     ok = results.get("ignore") == "" and results.get("warn") == "warn" and results.get("error") == "raise"
     rep.add("C16.R5", f"{hm.qname}:exhaustive", ok, hm.loc(), "ignore: silent; warn: warns; error: raises" if ok else f"on_missing handling is not exhaustive/consistent: {results}")
-    live_bad = reachable(hcfg.entry, specialize({"on_missing not in _VALID_ON_MISSING": True}))
+    live_bad = reachable(hcfg.entry, specialize(policy_valuation(hm, vals, None)))
     ok = hcfg.exit_return not in live_bad
     rep.add("C16.R5", f"{hm.qname}:rejects-unknown", ok, hm.loc(), "an undeclared policy raises" if ok else "an undeclared on_missing value is silently accepted")
     for m in template_methods(db, "run"):
@@ -268,8 +282,22 @@ def run(ctx) -> None:
     ok = len(outs) == 1 and isinstance(outs[0].value, ast.IfExp) and src(outs[0].value.test) == "graph.selected is not None" and src(outs[0].value.body) == "graph.selected" and src(outs[0].value.orelse) == "graph.outputs"
     rep.add("C16.R6", f"{gn.qname}:exposed-outputs", ok, init.loc(), "a nested graph exposes its selection if set, else all outputs" if ok else "a nested graph does not expose 'selected else all outputs'")
     rs = db.func("runners._shared.helpers._resolve_select")
-    t = src(rs.node)
-    ok = "select is _UNSET_SELECT" in t and "list(graph.selected) if graph.selected is not None else '**'" in t and any(isinstance(n, ast.Return) and src(n.value) == "select" for n in walk_local(rs.node))
+    from .common import returns_under
+
+    p_sel, p_g = (rs.positional_params + ["select", "graph"])[:2]
+    rcfg = ctx.cfg(rs)
+    unset = {f"{p_sel} is _UNSET_SELECT": True, f"{p_sel} is not _UNSET_SELECT": False}
+    given = {f"{p_sel} is _UNSET_SELECT": False, f"{p_sel} is not _UNSET_SELECT": True}
+    has_sel = {f"{p_g}.selected is not None": True, f"{p_g}.selected is None": False, f"{p_g}.selected": True}
+    no_sel = {f"{p_g}.selected is not None": False, f"{p_g}.selected is None": True, f"{p_g}.selected": False}
+    r_given = returns_under(rcfg, given)
+    r_graph = returns_under(rcfg, {**unset, **has_sel})
+    r_all = returns_under(rcfg, {**unset, **no_sel})
+    ok = (
+        bool(r_given) and all(isinstance(e, ast.Name) and e.id == p_sel for e in r_given)
+        and bool(r_graph) and all(f"{p_g}.selected" in src(e) and not (isinstance(e, ast.Constant)) for e in r_graph)
+        and bool(r_all) and all(isinstance(e, ast.Constant) and e.value == "**" for e in r_all)
+    )
     rep.add("C16.R6", f"{rs.qname}", ok, rs.loc(), "unset -> graph selection -> all; an explicit run-time select overrides" if ok else "effective selection is not 'run-time select, else graph selection, else all'")
 
 
